@@ -219,7 +219,10 @@ def process_scope(
     if out is not None:
         if window_end is None:
             window_end = pos
-        window_end = min(window_end, end)
+        # the terminator closing this scope (the NUL sentinel of the outermost
+        # one) is not content, even if the scan ran past it
+        limit = end - 1 if buff[-1:] == endchar else end
+        window_end = min(window_end, limit)
         out.write(buff[window_start:window_end].encode("utf-8"))
 
     return pos
